@@ -423,7 +423,8 @@ impl Buffer {
         self.layers[layer].remove_line(line);
         if let Some((_, end)) = self.terminal_state.get_margins_top_bottom() {
             let buffer_width = self.layers[layer].get_width();
-            self.layers[layer].insert_line(end.max(0), Line::with_capacity(buffer_width));
+            let end = end.clamp(0, self.layers[layer].get_height());
+            self.layers[layer].insert_line(end, Line::with_capacity(buffer_width));
         }
     }
 
